@@ -16,7 +16,7 @@
  *          16 https  32 error-handler status saved  64 HTTP/2  128 h2 extended CONNECT
  *          256 upgrade allowed  512 request body spooled to temp files
  *          1024 server.stream-request-body=1  2048 proxy force-http10
- *   body:  -  |  h<hex>  |  r<len>.<seed>  (pseudo-random)
+ *   body:  -  |  h<hex>  |  r<len>.<seed>  (pseudo-random block of 65521 bytes, repeated)
  *   sched: comma list; a number n = the next n body bytes arrive (the first entry is what is
  *          queued when create_env runs), then gw_write_refill_wb() runs with the write queue
  *          drained; "e" = the chunked request body is complete (gw_handle_subrequest() step);
@@ -241,13 +241,16 @@ static void make_body(const char *tok) {
     else if (tok[0] == 'r') {
         unsigned long len = 0, seed = 0;
         sscanf(tok + 1, "%lu.%lu", &len, &seed);
+        /* pseudo-random block of up to 65521 bytes (LCG), repeated cyclically */
         body = malloc(len + 1);
         body_len = len;
         uint32_t x = (uint32_t)seed & 0x7fffffffu;
-        for (size_t i = 0; i < len; ++i) {
+        const size_t blk = len < 65521 ? len : 65521;
+        for (size_t i = 0; i < blk; ++i) {
             x = (x * 1103515245u + 12345u) & 0x7fffffffu;
             body[i] = (unsigned char)(x >> 16);
         }
+        for (size_t i = blk; i < len; ++i) body[i] = body[i - 65521];
     }
 }
 
